@@ -171,6 +171,48 @@ func structFieldVals(v ssa.Value, depth int) (map[string][]ssa.Value, bool) {
 	if depth > 4 {
 		return nil, false
 	}
+	// a struct built by a constructor helper of the package (idleWindow(x)): the
+	// literal(s) it returns, with its parameters replaced by the arguments
+	if call, ok := v.(*ssa.Call); ok && !call.Call.IsInvoke() {
+		cal := staticCallee(call)
+		if cal == nil || len(cal.Blocks) == 0 || cal.Signature.Results().Len() != 1 || call.Parent() == nil || cal.Pkg != call.Parent().Pkg {
+			return nil, false
+		}
+		out := map[string][]ssa.Value{}
+		n := 0
+		for _, rv := range c09ReturnValues(cal, 0) {
+			vals, ok := structFieldVals(rv, depth+1)
+			if !ok {
+				return nil, false
+			}
+			n++
+			for f, vs := range vals {
+				for _, fv := range vs {
+					if pa, isParam := fv.(*ssa.Parameter); isParam && pa.Parent() == cal {
+						for i, p := range cal.Params {
+							if p == pa && i < len(call.Call.Args) {
+								fv = call.Call.Args[i]
+							}
+						}
+					}
+					out[f] = append(out[f], fv)
+				}
+			}
+			// fields the literal does not mention are zero on that path: only exact when there is one return
+		}
+		if n != 1 {
+			if n == 0 {
+				return nil, false
+			}
+			// several returns: every field becomes one-of-several
+			for f := range out {
+				if len(out[f]) == 1 {
+					out[f] = append(out[f], out[f][0])
+				}
+			}
+		}
+		return out, true
+	}
 	var lit *ssa.Alloc
 	switch x := v.(type) {
 	case *ssa.Alloc:
@@ -518,7 +560,10 @@ func c09Resolve(c *Ctx) *c09 {
 			if !ok {
 				return
 			}
-			if _, isField := st.Addr.(*ssa.FieldAddr); !isField {
+			switch st.Addr.(type) {
+			case *ssa.FieldAddr, *ssa.IndexAddr:
+				// kept in a field, or in a table (that may itself be kept in a field)
+			default:
 				return
 			}
 			v := st.Val
